@@ -105,77 +105,136 @@ def run(ctx):
     vins = [b for b, t, c in ins.calls() if c and c.endswith("Vec::<T, A>::insert")]
     ctx.need(len(vins) == 1, "Vec::insert in Breakpoints::insert")
     vb = vins[0]
-    eqs, ords = [], []
-    for b in sorted(ins.live_blocks()):
-        t = ins.term(b)
-        if t["k"] == "switch":
-            c = ins.expr(t["a"], 8, stop={"named"})
-            if c[0] == "bin" and "address" in expr_str(c):
+    pos_calls = [(b, t) for b, t, c in ins.calls() if c and re.search(r"Iterator>?::position$", c)]
+    if pos_calls:
+        # form B: `position(|o| o.address >= new.address)`, a duplicate test at the position found, Vec::insert there (or at len)
+        pb, pt = pos_calls[0]
+        ctx.instance(1)
+        it = expr_str(ins.expr(pt["args"][0], 10), 300)
+        whole = len(pos_calls) == 1 and not re.search(r"(skip|take|filter|step_by|rev|chain)\(", it)
+        cls_ = [x for x in pt["f"].get("closures", []) if not x.startswith("fn:")]
+        ce = prog.fns[cls_[0]].local_expr(0, 10) if cls_ and cls_[0] in prog.fns else ("unknown",)
+        ces = expr_str(ce, 200)
+        # element on the left with >=, or the new address on the left with <=
+        arg_side = lambda e: any(x[0] == "arg" and x[1] == 2 for x in expr_walk(e))     # the closure's element parameter
+        elem_left = ce[0] == "bin" and any("address" in expr_str(x) and arg_side(x) for x in (ce[2], ce[3]))
+        okord = elem_left and ((ce[1] == "Ge" and arg_side(ce[2]) and not arg_side(ce[3])) or (ce[1] == "Le" and arg_side(ce[3]) and not arg_side(ce[2])))
+        ctx.oblig(whole and okord, {"position predicate": ces}, "first element whose address is >= the new one, over the whole list")
+        if not (whole and okord):
+            ctx.violation("order-test", sp_file_line(pt.get("sp")), "insert looks for `%s` over `%s`; it must find the first element of the whole list whose address is >= the new one" % (ces, it[:80]))
+        # duplicate test: an address equality whose true side returns true without inserting
+        eqs = []
+        for b in sorted(ins.live_blocks()):
+            t = ins.term(b)
+            if t["k"] == "switch":
+                c = ins.expr(t["a"], 10)
                 tg = {v: x for v, x in t["targets"]}
-                true_t = t["otherwise"] if 0 in tg else tg.get(1)
-                false_t = tg.get(0, t["otherwise"])
-                if c[1] == "Eq":
-                    eqs.append((b, c, true_t, false_t))
-                elif c[1] in ("Ge", "Gt", "Le", "Lt"):
-                    ords.append((b, c, true_t, false_t))
-    ctx.need(len(eqs) == 1 and len(ords) == 1, "one equality and one ordering test on addresses in insert (%d, %d)" % (len(eqs), len(ords)))
-    eb, ec, etrue, efalse = eqs[0]
-    ob, oc, otrue, ofalse = ords[0]
-    ctx.instance(1)
-    ok = vb not in ins.reachable(etrue)
-    ctx.oblig(ok, {"equal address": "returns without inserting"}, "Vec::insert unreachable from the equal edge")
-    if not ok:
-        ctx.violation("dup-insert", sp_file_line(ins.term(eb).get("sp")), "an equal address falls through to Vec::insert: duplicates become possible")
-    # the value returned on the equal edge is `true`
-    rets = [ins.rvalue_expr(s["r"], 2) for b in ins.reachable(etrue, avoid={vb}) for s in ins.stmts(b) if s["k"] == "assign" and s["p"]["l"] == 0]
-    ok = rets and all(r == ("const", 1) for r in rets)
-    ctx.oblig(ok, {"equal address returns": [expr_str(r) for r in rets]}, "true")
-    if not ok:
-        ctx.violation("dup-return", sp_file_line(ins.term(eb).get("sp")), "insert does not report an existing breakpoint (returns %s)" % [expr_str(r) for r in rets])
-    ctx.instance(1)
-    ok = ins.dominates(efalse, ob)
-    ctx.oblig(ok, {"order": "equality is tested before the ordering test"}, "dominance")
-    if not ok:
-        ctx.violation("eq-after-order", sp_file_line(ins.term(ob).get("sp")), "the ordering test is not preceded by the equality test")
-    # ordering test: other >= new (or an equivalent spelling)
-    a, b2 = expr_str(oc[2]), expr_str(oc[3])
-    other_first = "other" in a and "breakpoint" in b2
-    new_first = "breakpoint" in a and "other" in b2
-    ok = (other_first and oc[1] in ("Ge", "Gt")) or (new_first and oc[1] in ("Le", "Lt"))
-    ctx.instance(1)
-    ctx.oblig(ok, {"ordering test": expr_str(oc)}, "first element not below the new address")
-    if not ok:
-        ctx.violation("order-test", sp_file_line(ins.term(ob).get("sp")), "insert looks for `%s`; it must stop at the first element whose address is >= the new one" % expr_str(oc))
-    # index recorded only under the true edge, loop left at once, and used by Vec::insert
-    idx_e = ins.expr(ins.term(vb)["args"][1], 2, stop={"named"})
-    ctx.need(idx_e[0] == "local", "index variable given to Vec::insert")
-    il = idx_e[1]
-    defs = ins.defs().get(il, [])
-    forms = []
-    okdefs = True
-    lps = kit.loops(ins)
-    for kind, db, i, node in defs:
-        if kind == "call":
-            forms.append("len" if (callee_of(node) or "").endswith("::len") else short(callee_of(node) or "?"))
-            okdefs = okdefs and (callee_of(node) or "").endswith("::len")
-        elif kind == "stmt":
-            e = ins.rvalue_expr(node["r"], 4, stop={"named"})
-            forms.append(expr_str(e))
-            under_true = ins.dominates(otrue, db)
-            leaves = all(db not in body or not (set(ins.reachable(db)) & {h}) for h, (body, l) in lps.items()) if False else True
-            # after recording, control must not come back to the loop header
-            back = any(h in ins.reachable(db) for h, (body, l) in lps.items() if db in body)
-            okdefs = okdefs and under_true and not back and e[0] == "local"
-    ctx.instance(1)
-    ctx.oblig(okdefs, {"insertion index": forms}, "len, or the position of the first element >= new, then leave the scan")
-    if not okdefs:
-        ctx.violation("index-shape", sp_file_line(ins.term(vb).get("sp")), "the insertion index is computed as %s, not as `len` or the first position whose address is >= the new one" % forms)
-    # the scan is over self in order
-    nxt = [t for b, t, c in ins.calls() if c and c.endswith("Iterator>::next")]
-    ok = len(nxt) == 1 and "Enumerate" in (callee_of(nxt[0]) or "")
-    ctx.oblig(ok, {"scan": short(callee_of(nxt[0])) if nxt else "?"}, "enumerate() over the list")
-    if not ok:
-        ctx.violation("scan-shape", ins.file_line(), "insert does not scan the list front to back with positions")
+                t1 = t["otherwise"] if 0 in tg else tg.get(1)
+                t0 = tg.get(0, t["otherwise"])
+                if c[0] == "bin" and c[1] in ("Eq", "Ne") and "address" in expr_str(c):
+                    eqs.append((b, t1, t0) if c[1] == "Eq" else (b, t0, t1))
+                elif c[0] == "call" and str(c[1]).endswith("is_some_and"):
+                    # `nth(i).is_some_and(|o| o.address == new.address)`
+                    pbk = [bb for bb, tt, cc in ins.calls() if cc == c[1] and tt.get("t") == b]
+                    for bb in pbk:
+                        for cl in ins.term(bb)["f"].get("closures", []):
+                            cfn = prog.fns.get(cl)
+                            if cfn is not None:
+                                ee = cfn.local_expr(0, 8)
+                                if ee[0] == "bin" and ee[1] == "Eq" and "address" in expr_str(ee):
+                                    eqs.append((b, t1, t0))
+        ctx.instance(1)
+        ok = len(eqs) >= 1 and all(vb not in ins.reachable(eq_t) for b, eq_t, ne_t in eqs)
+        rets = [ins.rvalue_expr(s_["r"], 2) for b, eq_t, ne_t in eqs for bb in ins.reachable(eq_t, avoid={vb}) for s_ in ins.stmts(bb) if s_["k"] == "assign" and s_["p"]["l"] == 0 and place_is_local(s_["p"])]
+        ok = ok and bool(rets) and all(r == ("const", 1) for r in rets)
+        ctx.oblig(ok, {"equal address": "returns true without inserting"}, "Vec::insert unreachable from the equal edge")
+        if not ok:
+            ctx.violation("dup-insert", ins.file_line(), "an element with the same address does not make insert return true without inserting: duplicates become possible")
+        # the index handed to Vec::insert is the position found, or len when there is none
+        ie = expr_str(ins.expr(ins.term(vb)["args"][1], 14), 400)
+        defs_ = []
+        il_ = ins.expr(ins.term(vb)["args"][1], 2, stop={"named"})
+        if il_[0] == "local":
+            for kind, db, i, node in ins.defs().get(il_[1], []):
+                defs_.append(expr_str(ins.rvalue_expr(node["r"], 12), 200) if kind == "stmt" else short(callee_of(node) or "?") + "(" + ", ".join(expr_str(ins.expr(a_, 10), 120) for a_ in node["args"]) + ")")
+        blob = ie + " " + " ".join(defs_)
+        ctx.instance(1)
+        ok = "position(" in blob and ("len(" in blob or "len" in " ".join(defs_))
+        ctx.oblig(ok, {"insertion index": defs_ or [ie[:80]]}, "the position found, else len")
+        if not ok:
+            ctx.violation("index-shape", sp_file_line(ins.term(vb).get("sp")), "the insertion index is `%s`, not the position of the first element >= new or len" % (defs_ or ie[:120]))
+    else:
+        eqs, ords = [], []
+        for b in sorted(ins.live_blocks()):
+            t = ins.term(b)
+            if t["k"] == "switch":
+                c = ins.expr(t["a"], 8, stop={"named"})
+                if c[0] == "bin" and "address" in expr_str(c):
+                    tg = {v: x for v, x in t["targets"]}
+                    true_t = t["otherwise"] if 0 in tg else tg.get(1)
+                    false_t = tg.get(0, t["otherwise"])
+                    if c[1] == "Eq":
+                        eqs.append((b, c, true_t, false_t))
+                    elif c[1] in ("Ge", "Gt", "Le", "Lt"):
+                        ords.append((b, c, true_t, false_t))
+        ctx.need(len(eqs) == 1 and len(ords) == 1, "one equality and one ordering test on addresses in insert (%d, %d)" % (len(eqs), len(ords)))
+        eb, ec, etrue, efalse = eqs[0]
+        ob, oc, otrue, ofalse = ords[0]
+        ctx.instance(1)
+        ok = vb not in ins.reachable(etrue)
+        ctx.oblig(ok, {"equal address": "returns without inserting"}, "Vec::insert unreachable from the equal edge")
+        if not ok:
+            ctx.violation("dup-insert", sp_file_line(ins.term(eb).get("sp")), "an equal address falls through to Vec::insert: duplicates become possible")
+        # the value returned on the equal edge is `true`
+        rets = [ins.rvalue_expr(s["r"], 2) for b in ins.reachable(etrue, avoid={vb}) for s in ins.stmts(b) if s["k"] == "assign" and s["p"]["l"] == 0]
+        ok = rets and all(r == ("const", 1) for r in rets)
+        ctx.oblig(ok, {"equal address returns": [expr_str(r) for r in rets]}, "true")
+        if not ok:
+            ctx.violation("dup-return", sp_file_line(ins.term(eb).get("sp")), "insert does not report an existing breakpoint (returns %s)" % [expr_str(r) for r in rets])
+        ctx.instance(1)
+        ok = ins.dominates(efalse, ob)
+        ctx.oblig(ok, {"order": "equality is tested before the ordering test"}, "dominance")
+        if not ok:
+            ctx.violation("eq-after-order", sp_file_line(ins.term(ob).get("sp")), "the ordering test is not preceded by the equality test")
+        # ordering test: other >= new (or an equivalent spelling)
+        a, b2 = expr_str(oc[2]), expr_str(oc[3])
+        other_first = "other" in a and "breakpoint" in b2
+        new_first = "breakpoint" in a and "other" in b2
+        ok = (other_first and oc[1] in ("Ge", "Gt")) or (new_first and oc[1] in ("Le", "Lt"))
+        ctx.instance(1)
+        ctx.oblig(ok, {"ordering test": expr_str(oc)}, "first element not below the new address")
+        if not ok:
+            ctx.violation("order-test", sp_file_line(ins.term(ob).get("sp")), "insert looks for `%s`; it must stop at the first element whose address is >= the new one" % expr_str(oc))
+        # index recorded only under the true edge, loop left at once, and used by Vec::insert
+        idx_e = ins.expr(ins.term(vb)["args"][1], 2, stop={"named"})
+        ctx.need(idx_e[0] == "local", "index variable given to Vec::insert")
+        il = idx_e[1]
+        defs = ins.defs().get(il, [])
+        forms = []
+        okdefs = True
+        lps = kit.loops(ins)
+        for kind, db, i, node in defs:
+            if kind == "call":
+                forms.append("len" if (callee_of(node) or "").endswith("::len") else short(callee_of(node) or "?"))
+                okdefs = okdefs and (callee_of(node) or "").endswith("::len")
+            elif kind == "stmt":
+                e = ins.rvalue_expr(node["r"], 4, stop={"named"})
+                forms.append(expr_str(e))
+                under_true = ins.dominates(otrue, db)
+                leaves = all(db not in body or not (set(ins.reachable(db)) & {h}) for h, (body, l) in lps.items()) if False else True
+                # after recording, control must not come back to the loop header
+                back = any(h in ins.reachable(db) for h, (body, l) in lps.items() if db in body)
+                okdefs = okdefs and under_true and not back and e[0] == "local"
+        ctx.instance(1)
+        ctx.oblig(okdefs, {"insertion index": forms}, "len, or the position of the first element >= new, then leave the scan")
+        if not okdefs:
+            ctx.violation("index-shape", sp_file_line(ins.term(vb).get("sp")), "the insertion index is computed as %s, not as `len` or the first position whose address is >= the new one" % forms)
+        # the scan is over self in order
+        nxt = [t for b, t, c in ins.calls() if c and c.endswith("Iterator>::next")]
+        ok = len(nxt) == 1 and "Enumerate" in (callee_of(nxt[0]) or "")
+        ctx.oblig(ok, {"scan": short(callee_of(nxt[0])) if nxt else "?"}, "enumerate() over the list")
+        if not ok:
+            ctx.violation("scan-shape", ins.file_line(), "insert does not scan the list front to back with positions")
     # remove
     rem = ctx.fn(BP + "::remove")
     ret = [t for b, t, c in rem.calls() if c and c.endswith("Vec::<T, A>::retain")]
